@@ -1,7 +1,8 @@
-CONSTANTS MaxLines = 5
+CONSTANTS MaxLines = 4
           Recognised <- Both
           CloseByAny = FALSE
           Directives = "prose"
+          CloseAnyLength = FALSE
           Tracked = TRUE
 INIT CLInit
 NEXT CLNext
